@@ -133,8 +133,17 @@ Lemma pick_take_cp : forall c n, is_scalar c = true -> (n < length (enc_cp c))%n
 Proof.
   intros c n Sc. unfold is_scalar, is_surrogate in Sc. unfold enc_cp.
   destruct (c <? 128) eqn:E1; [|destruct (c <? 2048) eqn:E2; [|destruct (c <? 65536) eqn:E3]];
-    cbn [length]; intro L; destruct n as [|[|[|[|n]]]]; try lia; try reflexivity; cbn [take];
-    apply pick_short; cbn [length]; try lia; intro; try lia; exfalso; lia.
+    cbn [length]; intro L.
+  - destruct n as [|n]; [reflexivity|lia].
+  - assert (X1 : 194 <= 192 + c / 64) by lia.
+    destruct n as [|[|n]]; [reflexivity| |lia]. cbn [take].
+    apply pick_short; cbn [length]; auto; lia.
+  - assert (X1 : 224 <= 224 + c / 4096) by lia.
+    destruct n as [|[|[|n]]]; [reflexivity| | |lia]; cbn [take];
+      (apply pick_short; cbn [length]; [lia | intro; exfalso; lia | lia | lia]).
+  - assert (X1 : 240 <= 240 + c / 262144) by lia.
+    destruct n as [|[|[|[|n]]]]; [reflexivity| | | |lia]; cbn [take];
+      (apply pick_short; cbn [length]; [lia | intro; exfalso; lia | intro; exfalso; lia | lia]).
 Qed.
 
 (* ---------- the re-encoder ---------- *)
